@@ -24,12 +24,15 @@ def prep_registry():
 
     @model
     def m_backend(ip, args, kw):
-        ip.ghost['backend_args'] = (list(args), dict(kw))
+        ip.ghost['backend_args'] = (list(args), kw)
         return Obj('BackendStub', {})
 
     @model
     def m_props(ip, args, kw):
-        a = list(args[1:]) + [kw[k] for k in sorted(kw)]
+        # (dt, start_time, subdiv_limit, liouvillian_epsrel), however they are passed
+        names = ['dt', 'start_time', 'subdiv_limit', 'liouvillian_epsrel']
+        a = list(args[1:])
+        a += [kw[n] for n in names[len(a):] if n in kw]
         return uf('propagators_of', args[0].fields['id'], *[to_real(x) if not is_int(x) else to_int(x) for x in a])
 
     @model
